@@ -72,6 +72,7 @@ package segment
 //@ func readFrameHeader
 //@   props C09 C11
 //@   ensures[C11.fh-short] len(buf) < 8 ==> result1 != nil
+//@   ensures[C11.fh-error-zero] result1 != nil ==> result0.typ == 0 && result0.len == 0 && result0.crc == 0
 //@   ensures[C11.fh-unknown-type] len(buf) >= 8 && buf[0] > 3 ==> errors.Is(result1, types.ErrCorrupt)
 //@   ensures[C11.fh-zero] len(buf) >= 8 && buf[0] == 0 ==> (result1 == nil <==> (buf[1] == 0 && buf[2] == 0 && buf[3] == 0 && LE32(buf, 4) == 0))
 //@   ensures[C11.fh-zero-typ] len(buf) >= 8 && buf[0] == 0 && result1 == nil ==> result0.typ == 0 && result0.len == 0 && result0.crc == 0
@@ -365,6 +366,7 @@ package segment
 //@   ensures[C15.readframe-payload] result2 == nil && offset <= 0xfffffff0 ==> eqbytes(result1.Bs, 0, r.rf.data, int(offset) + 8, int(result0.len))
 //@   ensures[C15.readframe-header] result2 == nil ==> (result0.typ == FrameEntry || result0.typ == FrameIndex) ==> result0.typ == r.rf.data[int(offset)] && result0.len == LE32(r.rf.data, int(offset) + 4)
 //@   ensures[C11.readframe-bounded] result2 == nil ==> result0.len <= MaxEntrySize
+//@   ensures[C15.too-big-only-above-max] errors.Is(result2, types.ErrCorrupt) && result0.typ != 0 ==> result0.len > MaxEntrySize
 //@   ensures[C11.readframe-in-file] result2 == nil && offset <= 0xfffffff0 ==> int(offset) + 8 + int(result0.len) <= r.rf.size
 
 //@ func (*Reader).findFrameOffset
